@@ -378,6 +378,34 @@ def wrapper_primitives(rep, cfg):
             rep.fail_closed("%s not found" % p)
 
 
+def bigint_conversions(rep, cfg):
+    """From<BigUint> / From<BigInt<N>> reduce the integer's little-endian bytes; From<F> for BigUint / BigInt<N> is the canonical integer"""
+    if cfg.name not in ("A", "R"):
+        return
+    for f in FIELDS:
+        for p in sorted(cfg.prog.bodies):
+            m = re.match(r"^fields::%s::arkworks::<impl core::convert::From<(.+?)> for (.+)>::from$" % f, p)
+            if not m:
+                continue
+            src, dst = m.group(1), m.group(2)
+            b = cfg.prog.bodies[p]
+            arg = mk("param", b["params"][0].get("name", "p0"))
+            out = cfg.run(p, mode="glue")
+            key = "BIGCONV/%s/%s::From<%s> for %s" % (cfg.name, f, src.split("::")[-1], dst.split("::")[-1])
+            unm = [u for u in out.unmodelled if "BigUint::to_bytes_le" not in u]
+            if "wrapper::" in dst and ("BigUint" in src or "BigInt" in src):
+                by = mk("call", "num_bigint::BigUint::to_bytes_le", arg) if "BigUint" in src else mk("bigint_le_bytes", arg)
+                ok, why = reduction_shape(out.value, f, by)
+                rep.ob(key, ok and not unm, "integer -> field must reduce the integer's little-endian bytes: " + why, where=cfg.where(p))
+            elif "wrapper::" in src and "BigInt" in dst:
+                want = mk("struct", "ark_ff::BigInt", ("0",), mk("canon_limbs", arg))
+                rep.ob(key, out.value is want and not unm, "field -> BigInt must be into_bigint (canonical limbs); got %s" % Tm.show(out.value, maxdepth=4), where=cfg.where(p))
+            elif "wrapper::" in src and "BigUint" in dst:
+                v = out.value
+                ok = v.op == "convert" and "BigUint" in str(v.args[1]) and v.args[2] is mk("struct", "ark_ff::BigInt", ("0",), mk("canon_limbs", arg))
+                rep.ob(key, ok and not unm, "field -> BigUint must convert the canonical integer (into_bigint); got %s" % Tm.show(v, maxdepth=4), where=cfg.where(p))
+
+
 def run(rep, facts, tier):
     rep.explanation = (
         "The hand-written conversion glue of the three fields is interpreted with arithmetic and the wrapper primitives abstract ('glue' mode) and each "
@@ -398,6 +426,7 @@ def run(rep, facts, tier):
         flagged(rep, cfg)
         limb_glue(rep, cfg)
         wrapper_primitives(rep, cfg)
+        bigint_conversions(rep, cfg)
         if name == "A":
             c02.from_bigint_rule(rep, cfg)
     from . import c17
